@@ -12,8 +12,8 @@ git -C "$wt" apply "$patch" || { echo "patch does not apply" >&2; exit 2; }
 export VERIF_REPO="$wt" VERIF_EVID=$ev
 for p in $ids; do echo $p; done | xargs -P $jobs -I{} bash -c './check {} > '$ev'/{}.log 2>&1; echo "{} exit=$?" >> '$ev'/{}.log'
 for p in $ids; do
-  rc=$(tail -1 $ev/$p.log); v=$(grep -c "^VIOLATION" $ev/$p.log)
-  echo "$rc violations=$v | $(grep -E "^C[0-9]+ (quick|thorough)" $ev/$p.log | cut -c1-150)"
+  rc=$(tail -1 $ev/$p.log); v=$(grep -ac "^VIOLATION" $ev/$p.log)
+  echo "$rc violations=$v | $(grep -aE "^C[0-9]+ (quick|thorough)" $ev/$p.log | cut -c1-150)"
   grep "^VIOLATION" $ev/$p.log | head -2 | while read l; do f=$(echo "$l" | grep -o 'replay=[^ ]*' | cut -d= -f2); python3 -c "
 import json,sys
 o=json.load(open('$f')); print('     ', (o.get('signature') or 'no-failing-input'), '|', (o.get('what') or str(o.get('no_longer_checks') or o.get('errors'))[:300])[:300])" 2>/dev/null; done
